@@ -70,7 +70,9 @@ func c03Forms() []c03Form {
 		c03Form{"idxnum", 1, func(ch []zn.Expr) zn.Expr { return zn.Index{Root: ch[0], Idx: zn.Num{Lit: "1"}} }},
 		c03Form{"idxvar", 1, func(ch []zn.Expr) zn.Expr { return zn.Index{Root: ch[0], Idx: zn.Var{Name: "K"}} }},
 		c03Form{"idxstr", 1, func(ch []zn.Expr) zn.Expr { return zn.Index{Root: ch[0], Idx: zn.Str{Val: "k"}} }},
-		c03Form{"idxexpr", 2, func(ch []zn.Expr) zn.Expr { return zn.Index{Root: ch[0], Idx: zn.Bin{Op: "+", L: ch[1], R: zn.Num{Lit: "1"}}} }},
+		c03Form{"idxexpr", 2, func(ch []zn.Expr) zn.Expr {
+			return zn.Index{Root: ch[0], Idx: zn.Bin{Op: "+", L: ch[1], R: zn.Num{Lit: "1"}}}
+		}},
 		c03Form{"member", 1, func(ch []zn.Expr) zn.Expr { return zn.Member{Root: ch[0], Name: "P"} }},
 		c03Form{"this", 0, func(ch []zn.Expr) zn.Expr { return zn.This{Name: "P"} }},
 		c03Form{"asgvar", 1, func(ch []zn.Expr) zn.Expr { return zn.Assign{Target: zn.Var{Name: "X"}, Val: ch[0]} }},
@@ -424,7 +426,7 @@ func init() {
 	mc.Register(&mc.Check{
 		ID:    "C03",
 		Level: "exploration",
-		Rule: "E1 x E3: ASTs = every statement list with <= k nodes (nesting <= 2) over 12 leaf statement forms and 14 compound forms (all 14 statement kinds), 90 program-section combinations (导入/输入/statements/拦截), every expression form over {name, number, text} and every such expression in every slot of every form, each placed in 8 statement slots; layouts = every vector of renderer choice points (synonym spellings, ASCII/full-width punctuation, quote family, optional space or /* */ comment between tokens, optional ， before 且/或/得到, end-of-line comments, blank lines, LF/CRLF/CR/LFCR globally and per line, TAB/4-space, line break after ， 、 { 【, 令： block form, ； instead of a line break) with <= d deviations from the default layout (deviation-bounded DFS). Oracle: dump(parser tree) == generator tree. Plus every single-token delete/duplicate/swap/truncate of every default rendering: accepted => completeness walker finds no missing part. Every (AST, layout) pair is distinct; all are non-trivial.",
+		Rule:  "E1 x E3: ASTs = every statement list with <= k nodes (nesting <= 2) over 12 leaf statement forms and 14 compound forms (all 14 statement kinds), 90 program-section combinations (导入/输入/statements/拦截), every expression form over {name, number, text} and every such expression in every slot of every form, each placed in 8 statement slots; layouts = every vector of renderer choice points (synonym spellings, ASCII/full-width punctuation, quote family, optional space or /* */ comment between tokens, optional ， before 且/或/得到, end-of-line comments, blank lines, LF/CRLF/CR/LFCR globally and per line, TAB/4-space, line break after ， 、 { 【, 令： block form, ； instead of a line break) with <= d deviations from the default layout (deviation-bounded DFS). Oracle: dump(parser tree) == generator tree. Plus every single-token delete/duplicate/swap/truncate of every default rendering: accepted => completeness walker finds no missing part. Every (AST, layout) pair is distinct; all are non-trivial.",
 		Assumptions: []string{
 			"the harness renderer's layout alternatives are exactly those the manual allows (listed in DESIGN.md C03); commas are only inserted where the manual exemplifies them",
 			"EmptyStmt nodes (from ；) are not part of the compared tree",
